@@ -51,6 +51,11 @@ def productions(rng: random.Random, leaf: str, tier: str) -> list[tuple[str, str
     outs.append(("abs:double-slash", "/{OUT}/" + leaf))
     outs.append(("rel:trailing", f"../outside/{leaf}/") if leaf != "shards_list.json" else
                 ("rel:odd-list-name", "../outside/shards_list.json/../shards_list.json"))
+    # backslash spellings: one harmless file name on POSIX unless something "normalises" separators
+    outs.append(("bs:rel", f"train\\..\\..\\outside\\{leaf}"))
+    outs.append(("bs:rel-up", f"..\\outside\\{leaf}"))
+    outs.append(("bs:mixed", f"train/..\\..\\outside/{leaf}"))
+    outs.append(("bs:abs", "{OUT}".replace("/", "\\") + "\\" + leaf))
     inside = [("in:dot", "train/./" + leaf), ("in:double-slash", "train//" + leaf),
               ("in:updown", "train/sub/../" + leaf), ("in:abs-inside", "{ROOT}/train/" + leaf)]
     if tier == "thorough":
